@@ -4,9 +4,9 @@ package account
 
 import "fmt"
 
-// VerifDetermineWitnessType exposes determineWitnessType and the witnessType
+// VerifC04DetermineWitnessType exposes determineWitnessType and the witnessType
 // helpers to the verification harness.
-func VerifDetermineWitnessType(version Version, state State, expiry,
+func VerifC04DetermineWitnessType(version Version, state State, expiry,
 	bestHeight uint32) (string, bool, int) {
 
 	wt := determineWitnessType(&Account{
